@@ -18,6 +18,24 @@ for o in 0 1 2 3; do $BIN --prop $PROP --base 7 --stride 4 --offset $o --max-run
 # D: a sample of seeds each in its own fresh process
 awk '{print $2}' $T/a.txt | head -40 | while read s; do $BIN --prop $PROP --seed $s 2>/dev/null | grep '^OK\|^FAIL' | cut -d' ' -f1-4; done | sort > $T/d.txt
 rc=0
+if [ $(wc -l < $T/a.txt) -lt 20 ]; then
+  # runs end at the first (known) finding: compare seeds one by one instead, each twice in fresh processes
+  python3 -c "
+M=(1<<64)-1
+def mix(b,i):
+    z=(b*0x9e3779b97f4a7c15+i*0xbf58476d1ce4e5b9+0x94d049bb133111eb)&M
+    z=((z^(z>>30))*0xbf58476d1ce4e5b9)&M
+    z=((z^(z>>27))*0x94d049bb133111eb)&M
+    z^=z>>31
+    return z&0x7fffffffffff
+for i in range(24): print(mix(7,i))" > $T/seeds.txt
+  for s in $(cat $T/seeds.txt); do $BIN --prop $PROP --seed $s 2>/dev/null | grep '^OK\|^FAIL' | cut -d' ' -f1-4; done > $T/e1.txt
+  for s in $(cat $T/seeds.txt); do $BIN --prop $PROP --seed $s 2>/dev/null | grep '^OK\|^FAIL' | cut -d' ' -f1-4; done > $T/e2.txt
+  cmp -s $T/e1.txt $T/e2.txt || { echo "NONDETERMINISM: single-seed runs differ"; diff $T/e1.txt $T/e2.txt | head; rc=1; }
+  echo "determinism $1 $PROP: $(wc -l < $T/e1.txt) seeds, each twice in fresh processes (batch ends at first finding): rc=$rc"
+  rm -rf $T
+  exit $rc
+fi
 cmp -s $T/a.txt $T/b.txt || { echo "NONDETERMINISM: same layout twice differs"; diff $T/a.txt $T/b.txt | head; rc=1; }
 # C covers a superset/subset of seeds: compare on the intersection
 join -j 2 <(sort -k2,2 $T/a.txt) <(sort -k2,2 $T/c.txt) | awk '$3!=$6||$4!=$7{print "NONDETERMINISM: position/process dependence", $0; bad=1} END{exit bad}' || rc=1
